@@ -81,15 +81,40 @@ def run(tier, seed):
         panics += json.loads(out)["panics"]
         events += sum(1 for _ in open(tp))
         jobs.append(tp)
+    # extension fields: the statements of at most 16 steps (all assertion kinds, periodic columns, auxiliary segment and Lagrange
+    # column among them) over the quadratic and the cubic extension of the harness field, validated by Trace_CompX.tla
+    xs = [sc for sc in scs if sc["shape"]["n"] <= 16]
+    withaux = [sc for sc in xs if sc["shape"].get("aux_degs")]
+    plain = [sc for sc in xs if not sc["shape"].get("aux_degs")]
+    nx = (16, 24) if tier == "quick" else (200, 300)
+    xsel = withaux[::max(1, len(withaux) // nx[0])][:nx[0]] + plain[::max(1, len(plain) // nx[1])][:nx[1]]
+    xjobs = []
+    for deg in (2, 3):
+        part = xsel[deg - 2::2]
+        for k in range(4):
+            sub = part[k::4]
+            if not sub:
+                continue
+            sp = os.path.join(wd, "xscs_%d_%d.ndjson" % (deg, k))
+            vlib.write_ndjson(sp, sub)
+            tp = os.path.join(wd, "xtrace_%d_%d.ndjson" % (deg, k))
+            rc, out, err = vlib.run_harness(exe, ["comp", "--scenarios", sp, "--out", tp, "--deg", str(deg)], timeout=900)
+            if rc != 0:
+                raise vlib.ToolError("comp harness (degree %d) rc=%s: %s" % (deg, rc, err[-400:]))
+            panics += json.loads(out)["panics"]
+            events += sum(1 for _ in open(tp))
+            xjobs.append((deg, tp))
     byid = {sc["id"]: sc for sc in scs}
     for p in panics:
         v.violation("comp/panic/" + p["what"], "building the composition polynomial panics: %s" % p["what"], byid.get(p["id"]))
 
     def validate(tp):
+        if isinstance(tp, tuple):
+            return tp[1], vlib.tlc_validate("Trace_CompX", "Trace_CompX_%d" % tp[0], tp[1], tag="Trace_CompX_" + os.path.basename(tp[1]), timeout=3300, xmx="4g")
         return tp, vlib.tlc_validate("Trace_Comp", "Trace_Comp", tp, tag="Trace_Comp_" + os.path.basename(tp), timeout=3300, xmx="4g")
 
     states, trans, accepted = r.distinct, r.generated, 0
-    for tp, rt in vlib.parallel(validate, jobs, max_workers=12):
+    for tp, rt in vlib.parallel(validate, xjobs + jobs, max_workers=15):
         states += rt.distinct
         trans += rt.generated
         if rt.ok:
@@ -99,20 +124,21 @@ def run(tier, seed):
         sid = int(m.group(2)) if m else -1
         sc = byid.get(sid, {})
         sh = sc.get("shape", {})
-        v.violation("comp/definition/%s" % ("periodic" if sh.get("periodic") else "plain"),
-                    "the prover's composition polynomial differs from its definition at an out-of-domain point (n=%s width=%s degrees=%s periodic cycles=%s exemptions=%s assertions=%s)" % (
-                        sh.get("n"), sh.get("width"), sh.get("degs"), sh.get("periodic"), sh.get("exempt"), [a["kind"] for a in sh.get("asserts", [])]), sc)
-    log("[trace] %d statements (x3 points), %d/%d shards accepted" % (len(scs), accepted, len(jobs)))
+        v.violation("comp/definition/%s%s" % ("periodic" if sh.get("periodic") else "plain", "/extension" if "xtrace" in tp else ""),
+                    "the prover's composition polynomial differs from its definition at an out-of-domain point (%sn=%s width=%s degrees=%s periodic cycles=%s exemptions=%s assertions=%s)" % (
+                        "extension field, " if "xtrace" in tp else "", sh.get("n"), sh.get("width"), sh.get("degs"), sh.get("periodic"), sh.get("exempt"), [a["kind"] for a in sh.get("asserts", [])]), sc)
+    log("[trace] %d statements (x3 points) over the base field, %d (x2 points) over the quadratic / cubic extension, %d/%d shards accepted" % (
+        len(scs), len(xsel), accepted, len(jobs) + len(xjobs)))
     rc = v.finish()
     vlib.write_evidence(PID, tier, seed, "model_checking", {
         "states": states, "transitions": trans, "traces_validated_against_impl": accepted,
         "samples": [scs[0]["shape"], scs[-1]["shape"]] if scs else [], "evaluations": events * 3, "distinct_nontrivial": len(scs),
         "rule": "statements of Gen_Stark.tla with width <= 9 and n <= 128, plus variants with all five assertion templates (sequences of n/4 and n/2 values) and a second "
                 "periodic column; three random out-of-domain points each",
-        "exhaustive": False, "shards_accepted": accepted,
+        "exhaustive": False, "shards_accepted": accepted, "extension_field_statements": len(xsel),
         "known_finding_occurrences": v.n_known, "new_violations": v.n_new,
     }, time.time() - t0, violations=v.n_new,
-        assumptions=["base-field composition over ToyField (generic code); extension-field composition and auxiliary segments are not evaluated by the model",
+        assumptions=["composition over ToyField and its quadratic / cubic extensions (generic code); extension fields for statements of at most 16 steps",
                      "the verifier's evaluation of the same expression is bound to the prover's by the out-of-domain consistency check exercised in C01/C02"])
     return rc
 
